@@ -5,17 +5,18 @@ CONSTANTS
   Keys <- MCKeys
   N <- MCN
   SlotOf <- MCSlotOf
+  NKeys = 5
   GenMod = 4
   Checked = TRUE
   Sizes = {1, 2}
   Depths = {0, 1, 2}
   Tags = {0}
-  MaxLen = 6
+  MaxLen = 1000
   MaxSearch = 3
 SPECIFICATION Spec
 VIEW View
 CONSTRAINT Bound
 INVARIANT NoCrash
 INVARIANT Inv
-PROPERTY PVData
+PROPERTY PVHolds
 CHECK_DEADLOCK FALSE
